@@ -360,7 +360,7 @@ def sweepReg (c0 : Cpu) (which blk nblk : Nat) (fmask : UInt8) (link : Nat := 99
         | true, some n => UInt64.ofNat n
         | _, _ => cyc.toUInt64
     alldoc := alldoc && isdoc
-    anyIo := anyIo || (match info with | none => false | some i => Spec.io i.page i.d.op)
+    anyIo := anyIo || (match info with | none => false | some i => i.unknown)
     alldocF := alldocF && (match info with
       | none => true
       | some i => !wk && Spec.documented i.page i.d.op && !Spec.io i.page i.d.op)
@@ -417,7 +417,7 @@ def handle (st : DState) (line : String) : DState × String :=
     | none => bad
     | some el =>
       let (c, sl) := executeTimed st.cpu el
-      let io := match (stepArch st.cpu.arch).2.2 with | none => false | some i => Spec.io i.page i.d.op
+      let io := match (stepArch st.cpu.arch).2.2 with | none => false | some i => i.unknown
       ({ st with cpu := c }, replyState c 0 ++ " " ++ (match sl with | none => "-" | some v => hexN 8 v.toNat) ++
          " " ++ hexN 8 c.slice.cur.toNat ++ " io=" ++ b01 io)
   | ["D"] => (st, memDelta st.base st.cpu.arch.bus.mem)
